@@ -55,7 +55,7 @@ fn plan_c17(tier: Tier) -> (Plan, Extra) {
 fn plan_c09(tier: Tier) -> (Plan, Extra) {
     let workers = batch::workers_default();
     let plan = match tier {
-        Tier::Quick => Plan { runs: 400_000, budget_s: 120.0, selftest_runs: 2000, workers },
+        Tier::Quick => Plan { runs: 1_000_000, budget_s: 120.0, selftest_runs: 2000, workers },
         Tier::Thorough => Plan { runs: 20_000_000, budget_s: 3000.0, selftest_runs: 20000, workers },
     };
     let mut coverage = Map::new();
